@@ -38,8 +38,9 @@ func (d verifOwnTypes) ResolveType(pkg string, name string) (*j5convert.TypeRef,
 }
 
 // request property names: plain, with an acronym (the JSON name is not the
-// lowerCamel of the proto name), with a digit
-var verifPropNames = []string{"thingId", "accountID", "fooURL", "name", "v2Key"}
+// lowerCamel of the proto name), with a digit, and one that is a proper prefix
+// of another (thing / thingId)
+var verifPropNames = []string{"thingId", "accountID", "fooURL", "name", "v2Key", "thing"}
 
 func verifStringField() *schema_j5pb.Field {
 	return &schema_j5pb.Field{Type: &schema_j5pb.Field_String_{String_: &schema_j5pb.StringField{}}}
@@ -197,6 +198,72 @@ func HarnessClientAPI() {
 			if k < len(rest) {
 				verifAssert(rest[k].Name == p, "other-property-name")
 			}
+		}
+	}
+}
+
+// HarnessSourceAPISubPackages (C15): a source API whose package has schemas
+// only in a sub-package (what every service-only package looks like) is
+// re-imported with every sub-package schema present and exporting to the same
+// form again.
+func HarnessSourceAPISubPackages() {
+	withRootSchema := ndBool("rootPackageHasASchema")
+	withResponse := ndBool("response")
+	svcName, base := "Widget", "/a/v1"
+	m := &sourcedef_j5pb.APIMethod{Name: "GetThing", HttpPath: "/things/:thingId", HttpMethod: client_j5pb.HTTPMethod_GET,
+		Request: &sourcedef_j5pb.AnonymousObject{Properties: []*schema_j5pb.ObjectProperty{{Name: "thingId", Schema: verifStringField(), Required: true}}}}
+	if withResponse {
+		m.Response = &sourcedef_j5pb.AnonymousObject{Properties: []*schema_j5pb.ObjectProperty{{Name: "result", Schema: verifStringField()}}}
+	}
+	els := []*sourcedef_j5pb.RootElement{{Type: &sourcedef_j5pb.RootElement_Service{Service: &sourcedef_j5pb.Service{Name: &svcName, BasePath: &base, Methods: []*sourcedef_j5pb.APIMethod{m}}}}}
+	if withRootSchema {
+		els = append(els, &sourcedef_j5pb.RootElement{Type: &sourcedef_j5pb.RootElement_Object{Object: &sourcedef_j5pb.Object{Def: &schema_j5pb.Object{Name: "Plain",
+			Properties: []*schema_j5pb.ObjectProperty{{Name: "a", Schema: verifStringField()}}}}}})
+	}
+	src := &sourcedef_j5pb.SourceFile{Path: "a/v1/x.j5s", Package: &sourcedef_j5pb.Package{Name: "a.v1"}, Elements: els}
+	summary, err := j5convert.SourceSummary(src, verifWarn{})
+	if err != nil {
+		verifFail("valid-package-summarised")
+		return
+	}
+	files, err := j5convert.ConvertJ5File(verifOwnTypes{summary: summary}, src)
+	if err != nil {
+		verifFail("valid-package-compiled")
+		return
+	}
+	u := j5schema.VerifNewUniverse(files...)
+	cache := j5schema.NewSchemaCache()
+	root := &source_j5pb.Package{Name: "a.v1", Schemas: map[string]*schema_j5pb.RootSchema{}}
+	sub := &source_j5pb.SubPackage{Name: "service", Schemas: map[string]*schema_j5pb.RootSchema{}}
+	root.SubPackages = []*source_j5pb.SubPackage{sub}
+	names := []string{}
+	for _, f := range u.Files {
+		msgs := f.Messages()
+		for i := 0; i < msgs.Len(); i++ {
+			rs, err := cache.Schema(msgs.Get(i))
+			if err != nil {
+				verifFail("compiled-message-reflects")
+				return
+			}
+			if f.Package() == "a.v1.service" {
+				sub.Schemas[string(msgs.Get(i).Name())] = rs.ToJ5Root()
+				names = append(names, string(msgs.Get(i).Name()))
+			} else {
+				root.Schemas[string(msgs.Get(i).Name())] = rs.ToJ5Root()
+			}
+		}
+	}
+	verifAssert(len(names) > 0, "sub-package-has-schemas")
+	ps, err := j5schema.PackageSetFromSourceAPI([]*source_j5pb.Package{root})
+	verifAssert(err == nil, "source-api-imported")
+	if err != nil {
+		return
+	}
+	for _, n := range names {
+		got, err := ps.SchemaByName("a.v1.service", n)
+		verifAssert(err == nil && got != nil, "sub-package-schema-present-after-import")
+		if err == nil && got != nil {
+			verifAssertDeepEqual(got.ToJ5Root(), sub.Schemas[n], "sub-package-schema-exports-to-the-same-form")
 		}
 	}
 }
